@@ -108,11 +108,17 @@ static inline Float *gv_vecf_at(const struct VecF *v, Index k)
 /* svd(): Golub-Reinsch decomposition A = U W V'.  What it promises about inv_W_: one entry per singular value, in the order in which the QR
    sweep happens to deliver them (the routine does not sort), zero exactly for the `defect` values below the tolerance.  Singular value k
    belongs to the k-th column of V -- a direction in the space of unknowns -- and has no relation to unknown k. */
+Index gv_sv_i;   /* ghost: the index asked in the harness */
 void SVD_svd(struct SVD *self)
 __CPROVER_requires(gv_exc == 0 && SVD_OK(self))
 __CPROVER_assigns(self->decomposed, self->defect, gv_exc, __CPROVER_object_whole(self->inv_W_.p))
 __CPROVER_ensures(gv_exc == 0 || gv_exc == GV_NoConvergence || gv_exc == GV_BadRegularization)
 __CPROVER_ensures(gv_exc == 0 ==> (self->decomposed && 0 <= self->defect && self->defect <= self->n))
+#ifdef GV_EXCL_SVD_LINDEP_BY_SINGULAR_VALUE
+/* exclusion predicate of the known finding: the cases where the i-th singular value happens to describe unknown i
+   (e.g. a diagonal system in natural order) */
+__CPROVER_ensures(gv_exc == 0 ==> ((self->inv_W_.p[gv_sv_i - 1] == 0) == self->gv_dep[gv_sv_i - 1]))
+#endif
 ;
 
 /* permutation facts, stated at an index (1-based arrays stored 0-based) */
@@ -443,6 +449,7 @@ void h_svd_lindep(void)
   S.gv_dep = malloc((size_t)n);
   __CPROVER_assume(S.inv_W_.p != NULL && S.gv_dep != NULL);
   gv_exc = 0;
+  gv_sv_i = i;
   SVD_lindep(&S, i);
   GV_CANARY("h_svd_lindep end");
 }
